@@ -27,11 +27,21 @@ fn base_case(prop: &str, seed: u64) -> (Case, Rng) {
         ops: Vec::new(),
         note: String::new(),
         http_arm: false,
+        defer_writes: false,
     };
     draw_sim_part(&mut rng, &mut case);
     // the HTTP arm: a share of the runs of the properties that are stated for both transports
     let mut arm = Rng::substream(seed, "http-arm");
     case.http_arm = matches!(prop, "C01" | "C02" | "C03" | "C05" | "C06" | "C07" | "C09" | "C10" | "C13" | "C14" | "C15" | "C16" | "C17" | "C18" | "C19") && arm.chance(if prop == "C03" { 0.15 } else { 0.3 });
+    let mut defer = Rng::substream(seed, "defer-writes");
+    let share = match prop {
+        "C12" => 0.4,
+        "C04" => 0.3,
+        "C11" | "C20" => 0.2,
+        "C01" | "C02" | "C03" | "C14" | "C16" | "C07" => 0.15,
+        _ => 0.0,
+    };
+    case.defer_writes = defer.chance(share);
     (case, rng)
 }
 
